@@ -155,6 +155,30 @@ def run_cases(cases, jobs=None, workdir=None):
     return res
 
 
+def confirm_timeouts(cases, results, factor=8, jobs=4):
+    """A timeout counts as a hang only if it persists with a much longer allowance, on a quiet
+    machine (few parallel jobs) and without injected delays. Results are updated in place."""
+    idx = [i for i, r in enumerate(results) if r.get("timed_out")]
+    if not idx:
+        return 0
+    again = []
+    for i in idx:
+        c = dict(cases[i])
+        c["timeout_ms"] = int(c.get("timeout_ms", 10000)) * factor
+        env = dict(c.get("env") or {})
+        env.pop("MLR_VERIF_PERTURB", None)
+        env.pop("MLR_VERIF_DELAY", None)
+        c["env"] = env
+        again.append(c)
+    res2 = run_cases(again, jobs=jobs)
+    cleared = 0
+    for i, r in zip(idx, res2):
+        if not r.get("timed_out"):
+            cleared += 1
+        results[i] = r
+    return cleared
+
+
 # ---------------------------------------------------------------------------
 # TLC
 
